@@ -112,7 +112,7 @@ func TestSystemPredicate(t *testing.T) {
 				load("reload")
 				reloaded = true
 			case op == 0:
-				dt := uint64(rapid.SampledFrom([]int{1, 7, 100, 499, 500, 501, 1000, 1500, 61000}).Draw(t, "dt"))
+				dt := uint64(rapid.SampledFrom([]int{1, 7, 100, 499, 500, 501, 1000, 1500, 9500, 10000, 20000, 61000}).Draw(t, "dt"))
 				hx.C.AddMs(dt)
 				c.Op("advance %d", dt)
 			case op == 1:
